@@ -94,7 +94,7 @@ LEGAL_NATIVE = {
 # text a console may not be able to encode: non-Latin-1, astral, a lone surrogate (json.loads can produce one), U+FEFF
 ODD_TEXT = {"onoff": ["да", "yes😀", "on\ud83d", "\ufefftrue"], "datetime": ["x😀", "中2020", "y\ud83d"],
             "num": ["12\ud83d", "1😀", "ü1", "中", "\ufeff1", "𝔸"]}
-BLANK_TEXT = ["", " "]                          # an emptied cell is an illegal cell of any typed column
+BLANK_TEXT = ["", "", " "]                          # an emptied cell is an illegal cell of any typed column
 ILLEGAL = {
     "onoff": ["maybe", "2", "yes", "on", "-", "nan", "1.0"],
     "datetime": ["yesterday", "2020-13-45", "x2020", "2020-02-30", "12:30x", "abc",
@@ -264,12 +264,15 @@ def run_impl(rows=None, text=None, fixer_kind="default", tracker="raising", to="
 
 # --------------------------------------------------------------------------- generator
 
-def gen_table(rng, idx, native=False, allow_transposed=True, n_row=None):
+def gen_table(rng, idx, native=False, allow_transposed=True, n_row=None, transposed=None):
     n_col = rng.choice([1, 2, 2, 3, 3, 4, 5]) if n_row is None else rng.choice([2, 3])
     if n_row is None:
         n_row = rng.choice([0, 1, 2, 2, 3, 4])       # 0: header only (name and unit rows, no values)
-    transposed = allow_transposed and rng.random() < 0.35
+    t_draw = allow_transposed and rng.random() < 0.35
+    transposed = t_draw if transposed is None else transposed
     kinds = [rng.choice(["text", "onoff", "datetime", "num", "num"]) for _ in range(n_col)]
+    if n_row >= 60:                                  # long tables are mostly numeric
+        kinds = [rng.choice(["text", "onoff", "datetime", "num", "num", "num", "num"]) for _ in range(n_col)]
     pool = list(NAMES)
     rng.shuffle(pool)
     names = pool[:n_col]
@@ -295,7 +298,7 @@ def gen_table(rng, idx, native=False, allow_transposed=True, n_row=None):
     return {"name": f"t{idx}", "transposed": transposed, "kinds": kinds, "names": names, "units": units, "data": data}
 
 
-def inject(rng, tab, native=False, p_defect=0.75):
+def inject(rng, tab, native=False, p_defect=0.75, style=None):
     """choose a bounded subset of defect sites; returns the defect description"""
     n_col, n_row = len(tab["names"]), len(tab["data"])
     d = {"illegal": {}, "dups": {}, "short": {}, "tshort": {}}
@@ -303,8 +306,19 @@ def inject(rng, tab, native=False, p_defect=0.75):
         return d
     cands = [(i, j) for i in range(n_row) for j in range(n_col) if tab["kinds"][j] != "text"]
     rng.shuffle(cands)
+    if n_row >= 60:
+        # long tables: a defect in every typed column first (then the extra ones wherever they fall)
+        first = {}
+        for c in cands:
+            first.setdefault(c[1], c)
+        head = sorted(first.values(), key=lambda c: c[1])
+        cands = head + [c for c in cands if c not in set(head)][:8]
     long = n_row >= 60
-    for (i, j) in cands[: rng.choice([2, 3, 4, 6] if long else [0, 1, 1, 2, 3])]:
+    # in a long table the defects are often of ONE kind (cells emptied by hand, one bad paste): blank / odd text / mixed
+    s_draw = rng.choice(["blank", "blank", "blank", "odd", "mixed", "mixed"]) if long else "mixed"
+    style = style or s_draw
+    blank = rng.choice(BLANK_TEXT)                   # "cells emptied by hand" come in one spelling
+    for (i, j) in cands[: (n_col + rng.choice([0, 1, 2])) if long else rng.choice([0, 1, 1, 2, 3])]:
         k = tab["kinds"][j]
         if native and rng.random() < 0.35:
             v = rng.choice(ILLEGAL_NATIVE[k])
@@ -312,11 +326,11 @@ def inject(rng, tab, native=False, p_defect=0.75):
                 v = rng.choice(ILLEGAL[k])
             d["illegal"][(i, j)] = v
         else:
-            r = rng.random()
+            r = {"blank": 0.2, "odd": 0.0}.get(style, rng.random())
             if r < 0.12:
                 d["illegal"][(i, j)] = rng.choice(ODD_TEXT[k])
             elif r < (0.4 if long else 0.22) and j > 0 and not tab["transposed"]:
-                d["illegal"][(i, j)] = rng.choice(BLANK_TEXT)      # (a blank first cell would end the block)
+                d["illegal"][(i, j)] = blank if style == "blank" else rng.choice(BLANK_TEXT)   # (j > 0: a blank first cell ends the block)
             else:
                 d["illegal"][(i, j)] = rng.choice(ILLEGAL[k])
     # a table without value rows can only have a name defect: aim there more often
@@ -328,7 +342,7 @@ def inject(rng, tab, native=False, p_defect=0.75):
         # is counted; an empty cell is a missing number (NaN) in a numeric column, the text "None" in a text column,
         # and an illegal cell (replacement + one warning) in an onoff / datetime column
         for j in rng.sample(range(n_col), rng.choice([1, 1, min(2, n_col - 1)])):
-            d["tshort"][j] = rng.randrange(0, n_row)
+            d["tshort"][j] = rng.randrange(max(0, n_row - 3), n_row)     # (a long line loses at most its last 3 cells)
     if not tab["transposed"] and n_col >= 2 and n_row >= 1 and rng.random() < 0.45:
         for i in rng.sample(range(n_row), rng.choice([1, 1, min(2, n_row)])):
             d["short"][i] = rng.randrange(1, n_col)          # keep the first cell: the row stays in the block
@@ -488,14 +502,25 @@ def expect_message_names_defects(entries, tab, d, out, case, what="strict failur
     adj = [[k for k, e in enumerate(entries) if pred(e)] for (_, _, pred) in wants]
     match_of_entry = {}
 
-    def augment(u, seen):
-        for k in adj[u]:
-            if k in seen:
-                continue
-            seen.add(k)
-            if k not in match_of_entry or augment(match_of_entry[k], seen):
-                match_of_entry[k] = u
-                return True
+    def augment(u0, _seen):
+        # iterative search for an augmenting path from defect u0 (alternating BFS; no recursion depth to exhaust)
+        parent, seen, queue = {}, set(), [u0]
+        while queue:
+            u = queue.pop(0)
+            for k in adj[u]:
+                if k in seen:
+                    continue
+                seen.add(k)
+                parent[k] = u
+                if k not in match_of_entry:
+                    while True:                      # flip the path back to u0
+                        pu = parent[k]
+                        prev = next((e for e, w in match_of_entry.items() if w == pu and e != k), None)
+                        match_of_entry[k] = pu
+                        if pu == u0:
+                            return True
+                        k = prev
+                queue.append(match_of_entry[k])
         return False
     for u in range(len(wants)):
         if not augment(u, set()):
@@ -643,10 +668,16 @@ def gen_stream(seed, idx, n_long=None):
         n_tab = rng.choice([1, 1, 2, 2, 3])
         tabs = [gen_table(rng, k, native) for k in range(n_tab)]
     else:
+        # long tables are enumerated systematically: size (ladder) x defect style x orientation
         native = False
-        tabs = [gen_table(rng, 0, native, n_row=n_long)] + ([gen_table(rng, 1, native)] if rng.random() < 0.5 else [])
+        style = ["blank", "mixed", "blank", "odd", "mixed"][idx % 5]
+        tabs = [gen_table(rng, 0, native, n_row=n_long, transposed=(idx % 5 == 4))] + \
+            ([gen_table(rng, 1, native)] if rng.random() < 0.5 else [])
         n_tab = len(tabs)
-    defs = [inject(rng, t, native) for t in tabs]
+    if n_long is None:
+        defs = [inject(rng, t, native) for t in tabs]
+    else:
+        defs = [inject(rng, tabs[0], native, p_defect=1.0, style=style)] + [inject(rng, t, native) for t in tabs[1:]]
     kinds = FIXER_KINDS + ["plain_lenient"]
     fk = kinds[idx % len(kinds)] if (idx < 4 * len(kinds) and n_long is None) else rng.choice(kinds)
     tracker = rng.choice(["raising", "collecting"])
@@ -1203,9 +1234,9 @@ def run(tier, seed, model_ok, translator, search=False):
         one_case(seed, idx, out, model_ok, ops, pend)
     # defect injection into LONG tables: a ladder of row counts (always one above each of 1024, 4096, 8192)
     lrng = make_rng(seed, "C13:ladder")
-    ladder = SIZE_LADDER + [20011] if thorough else sorted(set(lrng.sample(SIZE_LADDER, 4) + [129, 1025, 4097, 8193]))
+    ladder = SIZE_LADDER + [20011] if thorough else sorted(set(lrng.sample(SIZE_LADDER, 3) + [129, 1025, 4097, 8193]))
     for n in ladder:
-        for rep_i in range(3 if thorough else 2):
+        for rep_i in range(5 if thorough else (5 if n <= 300 else 3 if n <= 1100 else 1)):
             one_case(seed, rep_i, out, model_ok, ops, pend, n_long=n)
     for idx in range(600 if thorough else 120):
         direct_case(seed, idx, out, model_ok, ops, pend)
